@@ -616,7 +616,7 @@ func (in *Interp) exec(fr *frame, ins ssa.Instruction, initCtx bool) {
 		}
 		in.mapSet(m, in.get(fr, x.Key), copyVal(in.get(fr, x.Value)))
 	case *ssa.Range:
-		fr.regs[fr.fi.idx[x]] = in.rangeIter(in.get(fr, x.X))
+		fr.regs[fr.fi.idx[x]] = in.rangeIter(in.get(fr, x.X), x.X.Type())
 	case *ssa.Next:
 		fr.regs[fr.fi.idx[x]] = in.next(in.get(fr, x.Iter).(*iter), x)
 	case *ssa.DebugRef:
